@@ -114,9 +114,15 @@ def finite_difference_refutes(e, d, rng) -> dict | None:
     vs = sorted(e.get_variables(), key=lambda v: v.name)
     if not vs:
         return None
-    for _ in range(20):
-        base = {v.name: rng.choice([0.5, 1.0, 1.5, 2.0, 3.0]) for v in vs}
-        direction = {v.name: rng.choice([0.25, 0.5, 1.0]) for v in vs}
+    for attempt in range(60):
+        # lines through positive points first; then lines with bases and directions of BOTH signs, so that kinks of functions like
+        # |x - y| = ((x - y)**2)**0.5 (piecewise polynomial of low degree) fall inside the sampled stretch
+        if attempt < 20:
+            base = {v.name: rng.choice([0.5, 1.0, 1.5, 2.0, 3.0]) for v in vs}
+            direction = {v.name: rng.choice([0.25, 0.5, 1.0]) for v in vs}
+        else:
+            base = {v.name: rng.choice([-2.0, -1.25, -0.5, 0.25, 0.75, 1.5]) for v in vs}
+            direction = {v.name: rng.choice([-1.0, -0.5, 0.5, 0.75, 1.0, 1.25]) for v in vs}
         vals = []
         try:
             with np.errstate(all="ignore"):
@@ -222,6 +228,59 @@ def run(rep: vk.Report):
         deep_exprs.append(e)
     deep_fails = deep.run(shard=2)
 
+    # ---- churn: models over vector EXPRESSION operands are built, classified and DROPPED by the thousand (a sweep, a
+    # rolling horizon), so that addresses are reused; the degree of each is known by construction
+    import gc
+    from optyx import VectorVariable
+    churn = churn_bad = 0
+    first_seen = {}
+    for k in range(3000 if rep.tier == "quick" else 60000):
+        nvec = 2 + k % 4
+        xv = VectorVariable(f"c{k % 7}", nvec)
+        cvec = np.arange(1, nvec + 1, dtype=float)
+        kind_ = k % 6
+        if kind_ == 0:
+            w, want = xv * 2 + 1, 1
+        elif kind_ == 1:
+            w, want = (xv - 1) ** 2, 2
+        elif kind_ == 2:
+            w, want = 1 / (xv + 5), None
+        elif kind_ == 3:
+            w, want = (xv + 0) ** 3, 3
+        elif kind_ == 4:
+            w, want = gen.FN["sin"](xv + 0), None
+        else:
+            w, want = xv * xv, 2
+        form = k % 3
+        if form == 0:
+            e_, want_e = cvec @ w, want
+        elif form == 1:
+            e_, want_e = w.dot(xv), (None if want is None else max(2, want + 1))
+        else:
+            e_, want_e = w.sum(), want
+        import optyx.analysis as A_
+        got = A_.compute_degree(e_)
+        lin_ = bool(A_.is_linear(e_))
+        churn += 1
+        # reference: what the very same recipe reported the FIRST time it was built in this process (checked against the model's
+        # degree through the main stream); every later, freshly built copy must report the same
+        key_ = (kind_, form, nvec)
+        if key_ not in first_seen:
+            first_seen[key_] = (got, lin_)
+            if got is not None and want_e is not None and got < want_e:
+                pass
+            continue
+        want_e = first_seen[key_][0]
+        if got != want_e or lin_ != first_seen[key_][1]:
+            churn_bad += 1
+            if churn_bad <= 5:
+                rep.violation({"kind": "correspondence", "obligation": "degree of a freshly built model does not depend on the models built and dropped before it",
+                               "witness": {"model_number": k, "operand": ["2x+1", "(x-1)^2", "1/(x+5)", "(x+0)^3", "sin(x)", "x*x"][kind_],
+                                           "reduction": ["c @ w", "w . x", "sum(w)"][form], "size": nvec, "reported_degree": got,
+                                           "degree_reported_for_the_first_copy": want_e, "is_linear": lin_}}, concrete=True)
+        del e_, w, xv
+        if k % 500 == 499:
+            gc.collect()
     # ---- adjudicate
     for idx, (cs, es) in ([(i, (cases, exprs)) for i in fails] + [(i, (lenient, lenient_exprs)) for i in lfails]
                           + [(i, (deep, deep_exprs)) for i in deep_fails]):
@@ -245,6 +304,8 @@ def run(rep: vk.Report):
     cov["evaluations"] = len(cases.terms) + len(deep.terms) + len(lenient.terms)
     cov["numpy_typed_constant_cases"] = len(lenient.terms)
     cov["classified_bottom_up_first"] = pre_count[0]
+    cov["churn_models_built_and_dropped"] = churn
+    cov["churn_disagreements"] = churn_bad
     cov["distinct_nontrivial"] = cases.nontrivial + deep.nontrivial
     cov["rule"] = ("API-built expressions from the seeded generator (profiles poly/smooth/all), a corner stream "
                    "(vector nodes over non-polynomial elements, non-natural vector powers, constant-valued factors) "
